@@ -110,58 +110,110 @@ def disj(c):
     return [c]
 
 
-def check_header(ctx, prog, send, recv):
-    # ---- send: if (len < 126) 7-bit ; else if (len < 65536) 126 + u16 ; else 127 + i64
-    chain = None
-    for s_ in ir.walk_stmts(send['body']):
-        if s_.get('k') == 'if' and s_.get('else') is not None and s_['else'].get('k') == 'if':
-            chain = s_
-            break
-    if chain is None:
-        raise AnalysisBroken('send(): length-form decision chain not found')
-    lenvar = None
-    for w in walk_expr(chain['c']):
-        if w.get('k') == 'var' and T(send, w.get('t')).get('int'):
-            lenvar = w
-    conds = [chain['c'], chain['else']['c']]
-    bodies = [chain['then'], chain['else']['then'], chain['else'].get('else')]
+def stream_emissions(f, maximal, cls='asl::StreamBuffer'):
+    """arguments streamed by a chained `buf << a << b` expression, in emission order"""
+    e = maximal
+    out = []
+    while e.get('k') == 'call' and e.get('op') == '<<' and e.get('clsp') == cls:
+        out.append(e['a'][0] if e.get('a') else None)
+        e = strip(e.get('obj') or {})
+        while e.get('k') in ('cast', 'temp'):
+            e = strip(e['e'])
+    out.reverse()
+    return out
 
-    def holds(c, v):
-        return bool(bytesets.Evaluator(prog, send, {lenvar['id']: v}).ev(c))
-    try:
-        b1 = holds(conds[0], 125) and not holds(conds[0], 126)
-        b2 = holds(conds[1], 65535) and not holds(conds[1], 65536) and holds(conds[1], 126)
-        ctx.evaluations += 5
-    except bytesets.Undecidable as ex:
-        ctx.undecided('C11.header', send['pq'], 'send:length form boundaries', fwhere(send, chain['l']), 'boundary conditions not evaluable: %s' % ex)
-        b1 = b2 = None
-    if b1 is not None:
-        ctx.check(b1, 'C11.header', send['pq'], 'send:7-bit form up to 125', fwhere(send, chain['l']), 'condition true at 125, false at 126',
-                  'send() uses the 7-bit length form for a payload of 126 bytes (126 and 127 are the markers of the extended forms) or not for 125: `%s`' % pe(conds[0]))
-        ctx.check(b2, 'C11.header', send['pq'], 'send:16-bit form up to 65535', fwhere(send, chain['else']['l']), 'condition true at 126 and 65535, false at 65536',
-                  'send() announces a payload of 65536 bytes with the 16-bit length form (it truncates to 0 and desynchronises the stream), or not 65535: `%s`' % pe(conds[1]))
-    def consts_in(body):
-        return sorted(set(const_val(w) for e in ir.stmt_exprs(body) for w in walk_expr(e) if w.get('k') == 'int' and not w.get('boollit') and const_val(w) in (126, 127)))
-    def widths(body):
-        ws = []
-        for e in ir.stmt_exprs(body):
-            if e.get('k') == 'call' and e.get('pq') == 'asl::StreamBuffer::operator<<' and e.get('a'):
-                t = T(send, strip_lv(e['a'][0]).get('t'))
-                if t.get('ref'):
-                    t = T(send, t.get('to'))
-                ws.append(t.get('sz'))
-        return ws
-    ctx.check(consts_in(bodies[1]) == [126] and 2 in widths(bodies[1]), 'C11.header', send['pq'], 'send:marker 126 + 2-byte length', fwhere(send, bodies[1]['l']), 'marker 126 then 16-bit length',
-              'the 16-bit form does not write marker 126 followed by a 2-byte length (markers %s, widths %s)' % (consts_in(bodies[1]), widths(bodies[1])))
-    ctx.check(bodies[2] is not None and consts_in(bodies[2]) == [127] and 8 in widths(bodies[2]), 'C11.header', send['pq'], 'send:marker 127 + 8-byte length', fwhere(send, (bodies[2] or chain)['l']), 'marker 127 then 64-bit length',
-              'the 64-bit form does not write marker 127 followed by an 8-byte length')
-    # first byte: 0x80 | opcode ; mask bit 0x80
-    b0 = [e for e in fn_exprs(send) if e.get('k') == 'bin' and e.get('op') == '|' and const_val(e['x']) == 0x80]
-    ctx.check(bool(b0), 'C11.header', send['pq'], 'send:FIN bit 0x80 | opcode', fwhere(send), 'b0 = 0x80 | opcode', 'send() does not build the first byte as 0x80 | opcode')
+
+def check_header(ctx, prog, send, recv):
+    # ---- send: the header bytes written for each payload length / role, by evaluation of the guards and arguments of every
+    # `header << x` in send().  Expected (RFC 6455 5.2): b0 = 0x80 | opcode; then mask bit | 7-bit length, or | 126 followed by
+    # the length as 16 bits (126..65535), or | 127 followed by the length as 64 bits; then the 32-bit mask for a client
+    import bounded
+    G = q.Guarded(send)
+    calls = [e for e in fn_exprs(send) if e.get('k') == 'call' and e.get('op') == '<<' and e.get('clsp') == 'asl::StreamBuffer']
+    inner = set()
+    for e in calls:
+        o = strip(e.get('obj') or {})
+        while o.get('k') in ('cast', 'temp'):
+            o = strip(o['e'])
+        if o.get('k') == 'call' and o.get('op') == '<<':
+            inner.add(id(o))
+    maximal = [e for e in calls if id(e) not in inner]
+    order = dict((id(x), i) for i, x in enumerate(G.order))
+    maximal.sort(key=lambda e: order.get(id(e), 0))
+    if not maximal:
+        raise AnalysisBroken('send(): no header stream writes found')
+    lenp = [p_ for p_ in send['params'] if T(send, p_['t']).get('int') and not T(send, p_['t']).get('enum')]
+    typep = [p_ for p_ in send['params'] if T(send, p_['t']).get('enum') or 'FrameType' in (T(send, p_['t']).get('s') or '')]
+    if not lenp:
+        raise AnalysisBroken('send(): length parameter not found')
+    lenp = lenp[0]
+    role = 'send:header bytes for every length form'
+    problems = []
+    undec = None
+    for client in (0, 1):
+        for L in (1, 2, 125, 126, 127, 128, 255, 256, 65535, 65536, 65537, 70000, 0x7fffffff):
+            def bind(e, client=client):
+                if e.get('k') == 'mem' and e.get('f') == '_isClient':
+                    return client
+                if e.get('k') == 'mem' and e.get('f') == '_closed':
+                    return 0
+                return None
+            env = {lenp['id']: L}
+            ev = bounded.Bound(prog, send, env, {}, bind=bind)
+            emitted = []
+            for m in maximal:
+                r = bounded.admitted3(ev, G.of(m), G)
+                if r is False:
+                    continue
+                if r is None:
+                    # a guard that cannot be evaluated (mask != 0 with a random mask): only the mask word may hide behind it
+                    pass
+                for a_ in stream_emissions(send, m):
+                    t = T(send, strip_lv(a_).get('t'))
+                    if t.get('ref'):
+                        t = T(send, t.get('to'))
+                    try:
+                        v = ev.ev(a_)
+                    except bytesets.Undecidable:
+                        v = None
+                    emitted.append((t.get('sz'), v, a_))
+            ctx.evaluations += 1
+            want = [(1, None)]
+            mb = 0x80 if client else 0
+            if L <= 125:
+                want.append((1, mb | L))
+            elif L <= 65535:
+                want += [(1, mb | 126), (2, L)]
+            else:
+                want += [(1, mb | 127), (8, L)]
+            if client:
+                want.append((4, None))
+            got = [(sz, v) for sz, v, _ in emitted]
+            ok = len(got) == len(want) and all(g_[0] == w_[0] and (w_[1] is None or g_[1] is None or (g_[1] & ((1 << (8 * w_[0])) - 1)) == w_[1]) for g_, w_ in zip(got, want))
+            unknown = any(w_[1] is not None and g_[1] is None for g_, w_ in zip(got, want)) if len(got) == len(want) else False
+            if not ok:
+                problems.append((client, L, got, want))
+            elif unknown and undec is None:
+                undec = (client, L)
+    if problems:
+        client, L, got, want = problems[0]
+        def show(xs):
+            return '[' + ', '.join('%s-byte %s' % (sz, 'value' if v is None else '0x%x' % (v & ((1 << (8 * (sz or 1))) - 1))) for sz, v in xs) + ']'
+        ctx.violation('C11.header', send['pq'], role, fwhere(send), 'for a payload of %d bytes (%s) send() writes the header fields %s, RFC 6455 requires %s: the receiver mis-parses the length at this boundary and the stream desynchronises'
+                      % (L, 'client' if client else 'server', show(got), show(want)))
+    elif undec:
+        ctx.undecided('C11.header', send['pq'], role, fwhere(send), 'a header field is not evaluable for length %d' % undec[1])
+    else:
+        ctx.ok('C11.header', send['pq'], role, fwhere(send), '13 lengths around 125/126/65535/65536 x both roles: field widths, markers and length values as RFC 6455 5.2')
+    # first byte: 0x80 | opcode
+    b0 = [e for e in fn_exprs(send) if e.get('k') == 'bin' and e.get('op') == '|' and 0x80 in (const_val(e['x']), const_val(e['y']))]
+    first = stream_emissions(send, maximal[0])
+    okb0 = bool(first) and any(w in b0 for w in walk_expr(q.expand(send, first[0]))) or (bool(first) and any(w.get('k') == 'bin' and w.get('op') == '|' and 0x80 in (const_val(w['x']), const_val(w['y'])) for w in walk_expr(q.expand(send, first[0]))))
+    ctx.check(bool(okb0), 'C11.header', send['pq'], 'send:FIN bit 0x80 | opcode', fwhere(send), 'b0 = 0x80 | opcode', 'send() does not build the first header byte as 0x80 | opcode')
     ends = [e for e in fn_exprs(send) if e.get('k') == 'construct' and e.get('cls') == 'asl::StreamBuffer' and e.get('a')]
     big = q.enum_value(prog, 'asl::Endian', 'ENDIAN_BIG')
     ctx.check(bool(ends) and const_val(ends[0]['a'][0]) == big, 'C11.header', send['pq'], 'send:header in network byte order', fwhere(send), 'StreamBuffer(ENDIAN_BIG)', 'send() does not serialise the header in big-endian order')
-    # ---- receive
+    # ---- receive: the two header bytes are split with masks 0x80 / 0x0f and 0x80 / 0x7f
     masks = {}
     for e in fn_exprs(recv):
         if e.get('k') == 'bin' and e.get('op') == '&' and const_val(e['y']) is not None and strip(e['x']).get('k') == 'var':
@@ -169,17 +221,40 @@ def check_header(ctx, prog, send, recv):
     ok = any({0x80, 0x0f} <= m for m in masks.values()) and any({0x80, 0x7f} <= m for m in masks.values())
     ctx.check(ok, 'C11.header', recv['pq'], 'receive:FIN 0x80, opcode 0x0f, MASK 0x80, length 0x7f', fwhere(recv), 'masks %s' % dict((k, sorted(v)) for k, v in masks.items()),
               'receive() does not split the two header bytes with masks 0x80/0x0f and 0x80/0x7f (found %s)' % dict((k, sorted(v)) for k, v in masks.items()))
-    eqs = {}
+    # extended length: the unsigned 16-bit read runs exactly for the 7-bit value 126, the 64-bit read exactly for 127 (guards of
+    # the reads evaluated with the 7-bit length variable bound to 0..127)
+    import bounded
+    Gr = q.Guarded(recv)
+    len7 = None
     for s_ in ir.walk_stmts(recv['body']):
-        if s_.get('k') == 'if':
-            c = strip(s_['c'])
-            if c.get('k') == 'bin' and c.get('op') == '==' and const_val(c['y']) in (126, 127):
-                rd = [T(recv, e.get('t')) for e in ir.stmt_exprs(s_['then']) if e.get('k') == 'call' and e.get('pq') == 'asl::Socket::read' and not e.get('a')]
-                eqs[const_val(c['y'])] = rd
-    ok126 = 126 in eqs and len(eqs[126]) == 1 and eqs[126][0].get('bits') == 16 and eqs[126][0].get('sg') is False
-    ok127 = 127 in eqs and len(eqs[127]) == 1 and eqs[127][0].get('bits') == 64
-    ctx.check(ok126, 'C11.header', recv['pq'], 'receive:marker 126 reads an unsigned 16-bit length', fwhere(recv), 'read<unsigned short>()', 'receive() does not read an unsigned 16-bit length after marker 126')
-    ctx.check(ok127, 'C11.header', recv['pq'], 'receive:marker 127 reads a 64-bit length', fwhere(recv), 'read<Long>()', 'receive() does not read a 64-bit length after marker 127')
+        if s_.get('k') == 'decl':
+            for v in s_['vars']:
+                if v.get('init') is not None and T(recv, v['t']).get('int') and any(w.get('k') == 'bin' and w.get('op') == '&' and const_val(w['y']) == 0x7f for w in walk_expr(v['init'])):
+                    len7 = v
+    ext = [e for e in socket_reads(recv) if T(recv, e.get('t')).get('bits') in (16, 64)]
+    if len7 is None or not ext:
+        ctx.undecided('C11.header', recv['pq'], 'receive:extended length forms', fwhere(recv), '7-bit length variable or extended-length reads not found')
+    else:
+        rel = lambda c: any(w.get('k') == 'var' and w.get('id') == len7['id'] for w in walk_expr(q.expand(recv, c, bools_only=True)))
+        for bits_, marker, label in ((16, 126, 'receive:marker 126 reads an unsigned 16-bit length'), (64, 127, 'receive:marker 127 reads a 64-bit length')):
+            rs = [e for e in ext if T(recv, e.get('t')).get('bits') == bits_]
+            runs_at = set()
+            und = False
+            for e in rs:
+                for v7 in range(128):
+                    r = bounded.admitted3(bounded.Bound(prog, recv, {len7['id']: v7}, {}), Gr.of(e), Gr, relevant=rel)
+                    if r is None:
+                        und = True
+                    elif r:
+                        runs_at.add(v7)
+            ctx.evaluations += 128
+            if und:
+                ctx.undecided('C11.header', recv['pq'], label, fwhere(recv), 'guards of the extended-length read not evaluable')
+                continue
+            okk = runs_at == {marker} and len(rs) == 1 and (bits_ == 64 or T(recv, rs[0].get('t')).get('sg') is False)
+            ctx.check(okk, 'C11.header', recv['pq'], label, fwhere(recv, rs[0]['l'] if rs else None), 'read<%d-bit>() runs exactly for the 7-bit value %d' % (bits_, marker),
+                      'receive() reads %s for the 7-bit length value(s) %s (expected: exactly one %s %d-bit read, exactly for %d)' % (
+                          '%d %d-bit length(s)' % (len(rs), bits_), sorted(runs_at)[:6], 'unsigned' if bits_ == 16 else '', bits_, marker))
     # both constructors put the socket in big-endian mode
     n = 0
     for f in prog.functions:
@@ -191,80 +266,144 @@ def check_header(ctx, prog, send, recv):
     ctx.floor('C11.header constructors', n, 2)
 
 
+def opcode_var(recv):
+    for s_ in ir.walk_stmts(recv['body']):
+        if s_.get('k') == 'decl':
+            for v in s_['vars']:
+                if v.get('init') is not None and T(recv, v['t']).get('int') and any(w.get('k') == 'bin' and w.get('op') == '&' and const_val(w['y']) == 0x0f for w in walk_expr(v['init'])):
+                    return v
+    return None
+
+
+def fin_var(recv):
+    for s_ in ir.walk_stmts(recv['body']):
+        if s_.get('k') == 'decl':
+            for v in s_['vars']:
+                if v.get('init') is not None and any(w.get('k') == 'bin' and w.get('op') == '&' and const_val(w['y']) == 0x80 for w in walk_expr(v['init'])):
+                    return v
+    return None
+
+
+def runs_for_opcodes(prog, recv, G, site, opv, extra=None):
+    """{opcode: True/False/None} - does `site` run when the frame's opcode has that value (guards that do not mention it dropped)"""
+    import bounded
+    rel = lambda c: any(w.get('k') == 'var' and w.get('id') == opv['id'] for w in walk_expr(q.expand(recv, c, bools_only=True)))
+    out = {}
+    for op in range(16):
+        env = {opv['id']: op}
+        env.update(extra or {})
+        out[op] = bounded.admitted3(bounded.Bound(prog, recv, env, {}), G.of(site), G, relevant=rel)
+    return out
+
+
 def check_opcodes(ctx, prog, send, recv):
+    # opcodes send() can emit: every constant the variable OR-ed with 0x80 can hold
     sent = set()
+    opvars = set()
+    for e in fn_exprs(send):
+        if e.get('k') == 'bin' and e.get('op') == '|' and 0x80 in (const_val(e['x']), const_val(e['y'])):
+            for side in (e['x'], e['y']):
+                sv = strip(side)
+                while sv.get('k') == 'cast':
+                    sv = strip(sv['e'])
+                if sv.get('k') == 'var' and T(send, sv.get('t')).get('bits') == 8 and T(send, sv.get('t')).get('sg') is False:
+                    opvars.add(sv['id'])
+    sources = []
     for s_ in ir.walk_stmts(send['body']):
         if s_.get('k') == 'decl':
             for v in s_['vars']:
-                if v['n'] == 'opcode' or (v.get('init') is not None and strip(v['init']).get('k') == 'cond' and T(send, v['t']).get('bits') == 8):
-                    for w in walk_expr(v['init']):
-                        if w.get('k') == 'int' and not w.get('enumc') and const_val(w) is not None and 0 < const_val(w) < 16 and 't' in w:
-                            sent.add(const_val(w))
-    cases = set()
-    for s_ in ir.walk_stmts(recv['body']):
-        if s_.get('k') == 'case' and s_.get('v') is not None:
-            cases.add(s_['v'])
+                if v['id'] in opvars and v.get('init') is not None:
+                    sources.append(v['init'])
+    for vid in opvars:
+        for w_ in q._writes_to(send, vid):
+            if w_.get('k') == 'bin' and w_.get('op') == '=':
+                sources.append(w_['y'])
+    for src in sources:
+        for w in walk_expr(src):
+            if w.get('k') == 'int' and not w.get('enumc') and const_val(w) is not None and 0 < const_val(w) < 16 and 't' in w:
+                sent.add(const_val(w))
+    G = q.Guarded(recv)
+    opv = opcode_var(recv)
+    if opv is None or not sent:
+        ctx.undecided('C11.opcodes', recv['pq'], 'receive:handles every opcode send() emits', fwhere(recv), 'opcode variable of receive() or opcode constants of send() not found')
+        return
+    # an opcode is handled when some statement of receive() runs for it but not for every opcode
+    handled = set()
+    und = False
+    for e in fn_exprs(recv):
+        if e.get('k') not in ('call',) and not (e.get('k') == 'bin' and e.get('op') == '='):
+            continue
+        gs = G.of(e)
+        if not gs:
+            continue
+        r = runs_for_opcodes(prog, recv, G, e, opv)
+        on = set(op for op, v in r.items() if v is True)
+        if None in r.values():
+            und = True
+        if on and len(on) < 16:
+            # the common "data frame" range test (opcode < 8) is not a handler of its own
+            handled |= on if len(on) <= 3 else set()
+    ctx.evaluations += 16
     ctx.info['opcodes_sent'] = sorted(sent)
-    ctx.info['opcodes_handled'] = sorted(cases)
-    ctx.check(sent >= {1, 2, 8, 9, 10} and sent <= cases, 'C11.opcodes', recv['pq'], 'receive:handles every opcode send() emits', fwhere(recv), 'sent %s, handled %s' % (sorted(sent), sorted(cases)),
-              'send() emits opcodes %s but receive() handles %s' % (sorted(sent), sorted(cases)))
-    ctx.check({0, 1, 2} <= cases, 'C11.opcodes', recv['pq'], 'receive:data opcodes 0,1,2', fwhere(recv), 'continuation, text, binary', 'receive() does not handle the data opcodes 0, 1, 2')
-    # data cases append the payload
-    sw = [s_ for s_ in ir.walk_stmts(recv['body']) if s_.get('k') == 'switch']
-    if sw:
-        g = q.Guarded(recv)
-        apps = [e for e in fn_exprs(recv) if e.get('k') == 'call' and (e.get('pq') or '').endswith('WebSocketMsg::append')]
-        okk = False
-        for a in apps:
-            for c, labs, kind in g.of(a):
-                if kind == 'case':
-                    vals = set(x[0] for x in labs if x and x[0] != 'default')
-                    if vals == {0, 1, 2}:
-                        okk = True
-        ctx.check(okk, 'C11.opcodes', recv['pq'], 'receive:payload appended exactly for data opcodes', fwhere(recv), 'msg.append(buffer) under case 0/1/2', 'the payload is not appended to the message exactly under the data opcodes 0, 1, 2')
+    ctx.info['opcodes_handled'] = sorted(handled)
+    ctx.check(sent >= {1, 2, 8, 9, 10} and sent <= handled, 'C11.opcodes', recv['pq'], 'receive:handles every opcode send() emits', fwhere(recv), 'sent %s, handled %s' % (sorted(sent), sorted(handled)),
+              'send() emits opcodes %s but receive() handles %s' % (sorted(sent), sorted(handled)))
+    ctx.check({0, 1, 2} <= handled, 'C11.opcodes', recv['pq'], 'receive:data opcodes 0,1,2', fwhere(recv), 'continuation, text, binary', 'receive() does not handle the data opcodes 0, 1, 2')
+    # the payload is appended to the message exactly for the data opcodes
+    apps = [e for e in fn_exprs(recv) if e.get('k') == 'call' and (e.get('pq') or '').endswith('WebSocketMsg::append')]
+    role = 'receive:payload appended exactly for data opcodes'
+    if len(apps) != 1:
+        ctx.undecided('C11.opcodes', recv['pq'], role, fwhere(recv), '%d append sites' % len(apps))
+    else:
+        r = runs_for_opcodes(prog, recv, G, apps[0], opv)
+        if None in r.values():
+            ctx.undecided('C11.opcodes', recv['pq'], role, fwhere(recv, apps[0]['l']), 'guards of msg.append() not evaluable')
+        else:
+            on = sorted(op for op, v in r.items() if v)
+            ctx.check(on == [0, 1, 2], 'C11.opcodes', recv['pq'], role, fwhere(recv, apps[0]['l']), 'msg.append(buffer) runs for opcodes 0, 1, 2 only',
+                      'the payload is appended to the message for opcodes %s, not exactly for the data opcodes 0, 1, 2' % on)
 
 
 def check_message(ctx, prog, recv):
+    import bounded
     g = q.Guarded(recv)
     stores = [e for e in fn_exprs(recv) if e.get('k') == 'bin' and e.get('op') == '=' and strip_lv(e['x']).get('n') == 'haveMsg' and const_val(e['y']) == 1]
     if not stores:
-        raise AnalysisBroken('receive(): no store haveMsg = true')
-    finv = opv = None
-    for s_ in ir.walk_stmts(recv['body']):
-        if s_.get('k') == 'decl':
-            for v in s_['vars']:
-                if v['n'] == 'fin':
-                    finv = v
-                if v['n'] == 'opcode':
-                    opv = v
-    for e in stores:
-        gs = g.of(e)
-        in_close = any(kind == 'case' and any(x and x[0] == 8 for x in labs) for c, labs, kind in gs)
-        role = 'receive:haveMsg set at line-independent site %s' % ('close case' if in_close else 'end of frame')
-        if in_close:
-            ctx.ok('C11.message', recv['pq'], role, fwhere(recv, e['l']), 'close frame ends the reception')
-            continue
-        conds = [c for c, pol, kind in gs if kind == 'if' and pol is True]
-        okk = False
-        detail = 'not guarded by FIN and a data opcode'
-        if conds and finv is not None and opv is not None:
-            try:
-                true_ops = set()
+        stores = [e for e in fn_exprs(recv) if e.get('k') == 'bin' and e.get('op') == '=' and strip_lv(e['x']).get('k') == 'var' and T(recv, strip_lv(e['x']).get('t')).get('bool') and const_val(e['y']) == 1 and
+                  strip_lv(e['x'])['id'] in set(w['id'] for lp in ir.walk_stmts(recv['body']) if lp.get('k') in ('while', 'do', 'for') and lp.get('c') for w in walk_expr(lp['c']) if w.get('k') == 'var')]
+    if not stores:
+        raise AnalysisBroken('receive(): no store that completes the message (haveMsg = true)')
+    finv, opv = fin_var(recv), opcode_var(recv)
+    if finv is None or opv is None:
+        ctx.undecided('C11.message', recv['pq'], 'receive:message completion', fwhere(recv), 'FIN / opcode variables not found')
+    else:
+        rel = lambda c: any(w.get('k') == 'var' and w.get('id') in (opv['id'], finv['id']) for w in walk_expr(q.expand(recv, c, bools_only=True)))
+        complete = {}
+        und = False
+        for e in stores:
+            for fin in (0, 1):
                 for op in range(16):
-                    ev = bytesets.Evaluator(prog, recv, {finv['id']: 1, opv['id']: op})
-                    if all(ev.ev(c) for c in conds):
-                        true_ops.add(op)
-                nofin = any(all(bytesets.Evaluator(prog, recv, {finv['id']: 0, opv['id']: op}).ev(c) for c in conds) for op in range(16))
-                ctx.evaluations += 32
-                okk = {0, 1, 2} <= true_ops and not (true_ops & {8, 9, 10, 11, 12, 13, 14, 15}) and not nofin
-                detail = 'with FIN set the message completes for opcodes %s%s' % (sorted(true_ops), ' and also without FIN' if nofin else '')
-            except bytesets.Undecidable as ex:
-                ctx.undecided('C11.message', recv['pq'], role, fwhere(recv, e['l']), 'guard not evaluable: %s' % ex)
-                continue
-        ctx.check(okk, 'C11.message', recv['pq'], role, fwhere(recv, e['l']), detail,
-                  'a frame completes the message although it is a control frame or lacks FIN (%s): a ping between two fragments splits the message' % detail)
+                    r = bounded.admitted3(bounded.Bound(prog, recv, {finv['id']: fin, opv['id']: op}, {}), g.of(e), g, relevant=rel)
+                    if r is None:
+                        und = True
+                    elif r:
+                        complete.setdefault((fin, op), e)
+        ctx.evaluations += 32 * len(stores)
+        role = 'receive:message completes only on FIN of a data frame, or on close'
+        if und:
+            ctx.undecided('C11.message', recv['pq'], role, fwhere(recv, stores[0]['l']), 'guards of the completion store not evaluable')
+        else:
+            # required: (fin=1, op in 0..2) complete; close (8) may complete; nothing else
+            missing = [(1, op) for op in (0, 1, 2) if (1, op) not in complete]
+            extra = sorted(k for k in complete if not ((k[0] == 1 and k[1] < 8) or k[1] == 8))
+            early = sorted(k for k in complete if k[0] == 0 and k[1] != 8)
+            okk = not missing and not extra
+            detail = 'the message completes for (FIN, opcode) in %s' % sorted(complete)
+            ctx.check(okk, 'C11.message', recv['pq'], role, fwhere(recv, stores[0]['l']), 'completes exactly for FIN data frames and close',
+                      'a frame completes the message although it is a control frame or lacks FIN (%s): a ping between two fragments splits the message'
+                      % ('completes for (FIN, opcode) = %s' % (extra[:4] or missing[:4])) if (extra or not missing) else 'a FIN data frame (opcode %s) never completes the message: receive() does not return it' % [m[1] for m in missing])
     # payload buffer fresh per frame
-    loops = [s_ for s_ in ir.walk_stmts(recv['body']) if s_.get('k') == 'while']
+    loops = [s_ for s_ in ir.walk_stmts(recv['body']) if s_.get('k') in ('while', 'do', 'for') and any(e.get('k') == 'call' and e.get('pq') == 'asl::Socket::read' for e in ir.stmt_exprs(s_['body']))]
     if not loops:
         raise AnalysisBroken('receive(): frame loop not found')
     lp = loops[0]
@@ -280,32 +419,68 @@ def check_message(ctx, prog, recv):
 
 
 def check_unmask(ctx, prog, fs):
+    """Word-wise XOR over a byte buffer: the loop touches 4 * trips bytes; the buffer was grown to G and shrunk back to its
+    logical length S just before (asl::Array::resize keeps the capacity when shrinking), so 4 * trips <= G must hold.  G, S
+    and the trip count are evaluated for every logical length 0..64 (grid), through single-assignment locals."""
+    import bounded
     n = 0
     for f in fs:
-        loops = [s_ for s_ in ir.walk_stmts(f['body']) if s_.get('k') == 'for' and any(e.get('k') == 'bin' and e.get('op') == '^=' for e in ir.stmt_exprs(s_['body']))]
+        def has_xor(st):
+            return any(e.get('k') == 'bin' and e.get('op') == '^=' for e in ir.stmt_exprs(st))
+        loops = [s_ for s_ in ir.walk_stmts(f['body']) if s_.get('k') in ('for', 'while') and has_xor(s_['body']) and
+                 not any(x_.get('k') in ('for', 'while', 'do') and has_xor(x_['body']) for x_ in ir.walk_stmts(s_['body']))]
         for lp in loops:
             n += 1
             x = [e for e in ir.stmt_exprs(lp['body']) if e.get('k') == 'bin' and e.get('op') == '^='][0]
-            bufv = [w for w in walk_expr(x['x']) if w.get('k') == 'var' and T(f, w.get('t')).get('recp') == 'asl::Array']
+            bufv = [w for w in walk_expr(q.expand(f, x['x'])) if w.get('k') == 'var' and T(f, w.get('t')).get('recp') == 'asl::Array']
             role = '%s:word-wise XOR has 4 bytes of slack' % f['n']
             if not bufv:
                 ctx.undecided('C11.unmask', f['pq'], role, fwhere(f, lp['l']), 'XOR target buffer not identified')
                 continue
             bid = bufv[0]['id']
-            # preceding statements in the same block: resize(length()+4) then resize(length()-4)
-            seq = []
-            for e in fn_exprs(f):
-                if e.get('k') == 'call' and e.get('pq') == 'asl::Array::resize' and e.get('obj') is not None and strip(e['obj']).get('id') == bid and e.get('l', 0) < lp['l']:
-                    a = strip(e['a'][0])
-                    if a.get('k') == 'bin' and a.get('op') in ('+', '-') and const_val(a['y']) is not None:
-                        seq.append((a['op'], const_val(a['y'])))
-            grow = [v for op, v in seq if op == '+']
-            okk = bool(grow) and max(grow) >= 4 and seq[-2:] == [('+', max(grow)), ('-', max(grow))]
-            c = strip(lp['c'])
-            bound_ok = c.get('op') == '<'
-            ctx.evaluations += 1
-            ctx.check(okk and bound_ok, 'C11.unmask', f['pq'], role, fwhere(f, lp['l']), 'grow by %s then shrink before the loop' % (max(grow) if grow else None),
-                      'the 32-bit XOR loop over the byte buffer is not preceded by resize(length+4); resize(length-4): the last word may extend up to 3 bytes past the allocation')
+            word = T(f, strip_lv(x['x']).get('t')).get('sz') or 4
+            resizes = [e for e in fn_exprs(f) if e.get('k') == 'call' and e.get('pq') == 'asl::Array::resize' and e.get('obj') is not None and strip(e['obj']).get('id') == bid and e.get('l', 0) < lp['l']]
+            cl = q.counted_loop(f, lp)
+            if len(resizes) < 2 or cl is None or cl['op'] not in ('<', '<=') or not isinstance(cl['step'], int):
+                if len(resizes) < 2:
+                    ctx.violation('C11.unmask', f['pq'], role, fwhere(f, lp['l']), 'the %d-byte XOR loop over the byte buffer is not preceded by a grow-then-shrink of the buffer: the last word may extend up to %d bytes past the allocation' % (word, word - 1))
+                else:
+                    ctx.undecided('C11.unmask', f['pq'], role, fwhere(f, lp['l']), 'XOR loop is not a recognised counting loop')
+                continue
+            grow, shrink = resizes[-2], resizes[-1]
+            # quantities equal to the logical length: buf.length() and integer parameters the buffer was built from
+            def is_len(e):
+                return e.get('k') == 'call' and (e.get('pq') or '').endswith('::length') and strip(e.get('obj') or {}).get('id') == bid
+            params = set()
+            for s_ in ir.walk_stmts(f['body']):
+                if s_.get('k') == 'decl':
+                    for v in s_['vars']:
+                        if v['id'] == bid and v.get('init') is not None:
+                            for w in walk_expr(v['init']):
+                                if w.get('k') == 'var' and w.get('vk') == 'param' and T(f, w.get('t')).get('int'):
+                                    params.add(w['id'])
+            bad = None
+            try:
+                for L in range(0, 65):
+                    def mk(cur):
+                        return bounded.Bound(prog, f, dict((p_, L) for p_ in params), {}, bind=lambda e, cur=cur: cur if is_len(e) else None)
+                    G_ = mk(L).ev(grow['a'][0])
+                    S_ = mk(G_).ev(shrink['a'][0])
+                    ev = mk(S_)
+                    trips = q.trip_count(ev.ev(cl['init']), cl['op'], ev.ev(cl['bound']), cl['step'])
+                    ctx.evaluations += 1
+                    if trips is None or S_ != L or word * trips > G_ or word * trips < L:
+                        bad = (L, G_, S_, trips)
+                        break
+            except bytesets.Undecidable as u:
+                ctx.undecided('C11.unmask', f['pq'], role, fwhere(f, lp['l']), 'sizes not evaluable: %s' % u)
+                continue
+            if bad is None:
+                ctx.ok('C11.unmask', f['pq'], role, fwhere(f, lp['l']), 'for every length 0..64: grown to >= %d * trips, shrunk back to the length, every byte covered' % word)
+            else:
+                L, G_, S_, trips = bad
+                ctx.violation('C11.unmask', f['pq'], role, fwhere(f, lp['l']), 'for a payload of %d bytes the buffer is grown to %s, set back to %s, and the loop XORs %s words of %d bytes: %s' % (
+                    L, G_, S_, trips, word, 'the last word extends past the allocation' if trips is not None and word * trips > G_ else ('the logical length is not restored' if S_ != L else 'not every payload byte is unmasked')))
     ctx.floor('C11.unmask', n, 2)
 
 
